@@ -1546,7 +1546,10 @@ class ServerKeyExchange(HandshakeMsg):
         elif self.cipherSuite in CipherSuite.ecdhAllSuites:
             self.curve_type = parser.get(1)
             # only named curves supported
-            assert self.curve_type == 3
+            if self.curve_type != ECCurveType.named_curve:
+                raise TLSIllegalParameterException(
+                    "Unsupported curve type in ServerKeyExchange: {0}"
+                    .format(self.curve_type))
             self.named_curve = parser.get(2)
             self.ecdh_Ys = parser.getVarBytes(1)
         else:
